@@ -632,6 +632,7 @@ func run(t *rapid.T, mode string) {
 		w.Tty.ErrAfter = p.ReadErr
 	}
 	w.Tty.ZeroReads = p.ZeroReads
+	w.S.Note(hx.Fingerprint(*p))
 	s := w.S
 	// a polling tty never lets the system go quiet: bound each phase by
 	// simulated time instead (closed-system liveness bound: 30 s)
